@@ -112,6 +112,12 @@ def _pipeline(spec, cfg, solve, out, stats):
     g2 = np.asarray(b["phaseInfo"].phaseLocation2, dtype=float).ravel()
     out["phases_equal_guesses"] = bool(np.array_equal(g1, out["phase_high"])
                                        and np.array_equal(g2, out["phase_low"]))
+    # exponents of the power-law extrapolation at the four table ends (mu = 1 + 1/c_s^2):
+    # P_eos admissibility -- a table end with c_s^2 < 1/60 belongs to a phase whose
+    # enthalpy all but vanishes there (the zoo's few-dof points at 0.8 T_n), outside
+    # "equations of state with positive sound speeds" in any useful sense
+    out["mu_ends"] = [float(getattr(th, k, np.nan)) for k in
+                      ("muMinLowT", "muMaxLowT", "muMinHighT", "muMaxHighT")]
     out["ranges"] = {"H": [th.freeEnergyHigh.minPossibleTemperature[0],
                            th.freeEnergyHigh.maxPossibleTemperature[0]],
                      "L": [th.freeEnergyLow.minPossibleTemperature[0],
